@@ -50,6 +50,7 @@ type Cfg struct {
 	ArgOptional            bool // some function arguments are written `optional` (the checker turns that into default requiredness); only for checks whose model applies the same rule
 	StructElems            bool // a third of the containers hold struct-likes
 	ArgRequired            bool // some function arguments are written `required`
+	NoUnderscoreTwin       bool // with CompatNames: no global name ending in an underscore (known finding names-of-generated-helpers)
 	FuncNamePool           bool // method names from a small pool: the same name in several services, names that contain each other
 	EnumAsInt              bool // i32 / i64 values may be written as enum members (the member's number)
 	SameConstNames         bool // constants of different files (in different Go packages) may share a name
@@ -227,6 +228,17 @@ func (g *gen) typeName() string {
 	pool := stressGlobals
 	if g.cfg.CompatNames {
 		pool = append(append([]string{}, stressGlobals...), stressCompat...)
+		if g.cfg.NoUnderscoreTwin {
+			// `foo_` next to `NewFoo`: the rename of NewFoo under compatible_names (NewFoo_) meets
+			// the constructor of Foo_'s client (listed finding names-of-generated-helpers)
+			var q []string
+			for _, n := range pool {
+				if n != "foo_" && n != "Data_" && n != "new_" {
+					q = append(q, n)
+				}
+			}
+			pool = q
+		}
 	}
 	return g.globalName(pool, "T")
 }
